@@ -929,3 +929,103 @@ Print Assumptions C13_source_ReadUntilPunctuation.
 Print Assumptions C13_source_chunkReader_Read.
 Print Assumptions C13_source_punctuatedReader_Read.
 Print Assumptions C13_source_punctuatedReader_invariant.
+
+(* ============================== BLOCK 1: append to props/C13.v ============================== *)
+From SP Require Crypto Packets Decrypt Verify Signcrypt Streams StreamProofs GoAstStreams GoAstOpen GoAstRecv GoAstProofs4b GoAstProofs4c GoAstProofs7c GoEndToEndAuth GoAstProofs8c.
+Section C13_source_chunkReader_getNextChunk.
+Import Crypto Errors Packets Decrypt Verify Signcrypt Streams StreamProofs GoLang GoLang2 GoAstStreams GoAstOpen GoAstRecv GoAstProofs4b GoAstProofs7c GoEndToEndAuth GoAstProofs4c GoAstProofs8c.
+Local Open Scope string_scope.
+
+(* one Read, r.chunker.getNextChunk() being ANY function gnc of the chunker object (in particular the translated method run by
+   the evaluator: gnc_of), on every reader object representing a state st of the model's reader: count, error, reader left *)
+Theorem C13_source_chunkReader_Read_getNextChunk (gnc : gval -> option (list gval)) (F : nat) (st : cr_state) (o pv evv : gval) (p : bytes) :
+  (10 <= F)%nat -> (List.length (cr_pending st) < F)%nat -> cr_rep gnc st o pv evv ->
+  read_spec gnc st p (run_func2_at (S F) (ext_crx gnc) f_saltpack_chunkReader_Read [g_crx o pv evv; VBytes p]).
+Proof. exact (go_chunkReader_Read_gnc gnc F st o pv evv p). Qed.
+
+(* the first Read on the reader the three constructors return (the receiver object in its post-header state) *)
+Theorem C13_source_chunkReader_Read_decryptStream (c : crypto) (VV RING SK MK : gval) (st : dec_state) (F : nat) (n : N) (input p : bytes) :
+  (vmaj (ds_version st) = 1 \/ vmaj (ds_version st) = 2)%Z ->
+  (10 <= F)%nat -> (S (List.length input) < F)%nat ->
+  (n + N.of_nat (List.length input) < 18446744073709551616)%N ->
+  read_spec (gnc_dec c) (mkCr [] None (step_pending (dec_step c st) (S (List.length input)) n input)) p
+    (run_func2_at (S F) (ext_crx (gnc_dec c)) f_saltpack_chunkReader_Read
+                  [g_cr_new (ds_obj VV RING SK MK st (g_mps input n)); VBytes p]).
+Proof. exact (go_chunkReader_Read_decryptStream c VV RING SK MK st F n input p). Qed.
+
+Theorem C13_source_chunkReader_Read_verifyStream (c : crypto) (h : header) (pk hh : bytes) (F : nat) (n : N) (input p : bytes) :
+  (vmaj (h_version h) = 1 \/ vmaj (h_version h) = 2)%Z ->
+  (10 <= F)%nat -> (S (List.length input) < F)%nat ->
+  (n + N.of_nat (List.length input) < 18446744073709551616)%N ->
+  read_spec (gnc_ver c) (mkCr [] None (step_pending (verify_step c (h_version h) pk hh) (S (List.length input)) n input)) p
+    (run_func2_at (S F) (ext_crx (gnc_ver c)) f_saltpack_chunkReader_Read
+                  [g_cr_new (g_vs_key h hh pk (g_mps input n)); VBytes p]).
+Proof. exact (go_chunkReader_Read_verifyStream c h pk hh F n input p). Qed.
+
+Theorem C13_source_chunkReader_Read_signcryptOpenStream (c : crypto) (KR RV : gval) (pkey hh : bytes) (signer : option bytes)
+        (F : nat) (n : N) (input p : bytes) :
+  (10 <= F)%nat -> (S (List.length input) < F)%nat ->
+  (n + N.of_nat (List.length input) < 18446744073709551616)%N ->
+  read_spec (gnc_sc c) (mkCr [] None (step_pending (sc_step c pkey signer hh) (S (List.length input)) n input)) p
+    (run_func2_at (S F) (ext_crx (gnc_sc c)) f_saltpack_chunkReader_Read
+                  [g_cr_new (g_sos_done (g_mps input n) KR RV pkey hh signer); VBytes p]).
+Proof. exact (go_chunkReader_Read_signcryptOpenStream c KR RV pkey hh signer F n input p). Qed.
+
+(* a Read loop with any non-empty caller buffers is the model's cr_drain (C13_read_oblivious_chunk_reader is about cr_drain) *)
+Theorem C13_source_chunkReader_Read_loop (gnc : gval -> option (list gval)) (F : nat) (HF : (10 <= F)%nat) (bufs : list bytes)
+        (st : cr_state) (o pv evv : gval) (accb : bytes) :
+  pos_sizes (map (@List.length byte) bufs) -> cr_inv st -> (List.length (cr_pending st) < F)%nat -> cr_rep gnc st o pv evv ->
+  match go_reads gnc F bufs (g_crx o pv evv) (Z.of_nat (List.length accb)) with
+  | Some (cnt, ev) =>
+    err_rep ev (snd (cr_drain (map (@List.length byte) bufs) st accb)) /\
+    cnt = Z.of_nat (List.length (fst (cr_drain (map (@List.length byte) bufs) st accb)))
+  | None => unrep (snd (cr_rem st)) = true
+  end.
+Proof. exact (go_reads_drain gnc F HF bufs st o pv evv accb). Qed.
+
+(* ... over the readers of the three receivers: the plaintext of the model's loop (a prefix while no error), its ending error *)
+Theorem C13_source_chunkReader_Read_loop_decryptStream (c : crypto) (VV RING SK MK : gval) (st : dec_state) (F : nat) (n : N)
+        (input : bytes) (bufs : list bytes) :
+  (vmaj (ds_version st) = 1 \/ vmaj (ds_version st) = 2)%Z ->
+  (10 <= F)%nat -> (S (List.length input) < F)%nat ->
+  (n + N.of_nat (List.length input) < 18446744073709551616)%N ->
+  Forall (fun p => p <> []) bufs ->
+  let sl := step_loop (dec_step c st) (S (List.length input)) n input in
+  let res := go_reads (gnc_dec c) F bufs (g_cr_new (ds_obj VV RING SK MK st (g_mps input n))) 0 in
+  reads_spec res (List.concat (fst sl)) (snd sl) /\
+  ((List.length (List.concat (fst sl)) + List.length input + 2 <= List.length bufs)%nat -> reads_done res).
+Proof. exact (go_reads_decryptStream c VV RING SK MK st F n input bufs). Qed.
+
+Theorem C13_source_chunkReader_Read_loop_verifyStream (c : crypto) (h : header) (pk hh : bytes) (F : nat) (n : N)
+        (input : bytes) (bufs : list bytes) :
+  (vmaj (h_version h) = 1 \/ vmaj (h_version h) = 2)%Z ->
+  (10 <= F)%nat -> (S (List.length input) < F)%nat ->
+  (n + N.of_nat (List.length input) < 18446744073709551616)%N ->
+  Forall (fun p => p <> []) bufs ->
+  let sl := step_loop (verify_step c (h_version h) pk hh) (S (List.length input)) n input in
+  let res := go_reads (gnc_ver c) F bufs (g_cr_new (g_vs_key h hh pk (g_mps input n))) 0 in
+  reads_spec res (List.concat (fst sl)) (snd sl) /\
+  ((List.length (List.concat (fst sl)) + List.length input + 2 <= List.length bufs)%nat -> reads_done res).
+Proof. exact (go_reads_verifyStream c h pk hh F n input bufs). Qed.
+
+Theorem C13_source_chunkReader_Read_loop_signcryptOpenStream (c : crypto) (KR RV : gval) (pkey hh : bytes) (signer : option bytes)
+        (F : nat) (n : N) (input : bytes) (bufs : list bytes) :
+  (10 <= F)%nat -> (S (List.length input) < F)%nat ->
+  (n + N.of_nat (List.length input) < 18446744073709551616)%N ->
+  Forall (fun p => p <> []) bufs ->
+  let sl := step_loop (sc_step c pkey signer hh) (S (List.length input)) n input in
+  let res := go_reads (gnc_sc c) F bufs (g_cr_new (g_sos_done (g_mps input n) KR RV pkey hh signer)) 0 in
+  reads_spec res (List.concat (fst sl)) (snd sl) /\
+  ((List.length (List.concat (fst sl)) + List.length input + 2 <= List.length bufs)%nat -> reads_done res).
+Proof. exact (go_reads_signcryptOpenStream c KR RV pkey hh signer F n input bufs). Qed.
+End C13_source_chunkReader_getNextChunk.
+Print Assumptions C13_source_chunkReader_Read_getNextChunk.
+Print Assumptions C13_source_chunkReader_Read_decryptStream.
+Print Assumptions C13_source_chunkReader_Read_verifyStream.
+Print Assumptions C13_source_chunkReader_Read_signcryptOpenStream.
+Print Assumptions C13_source_chunkReader_Read_loop.
+Print Assumptions C13_source_chunkReader_Read_loop_decryptStream.
+Print Assumptions C13_source_chunkReader_Read_loop_verifyStream.
+Print Assumptions C13_source_chunkReader_Read_loop_signcryptOpenStream.
+
+
